@@ -18,6 +18,40 @@ def excluded(src):
     return any(p(src) for p in _EXCL)
 
 
+def _comma_group_binop(src):
+    """a GROUPING parenthesis with a comma at its own nesting level, followed by a binary operator other than && || ?? , = ?"""
+    stack = []
+    n = len(src)
+    for i, ch in enumerate(src):
+        if ch == '(':
+            j = i - 1
+            while j >= 0 and src[j] in ' \t\n':
+                j -= 1
+            prev = src[j] if j >= 0 else ''
+            grouping = not (prev.isalnum() or (prev != '' and prev in '_$)]`'))
+            if prev.isalnum() or (prev != '' and prev in '_$'):
+                k = j
+                while k >= 0 and (src[k].isalnum() or src[k] in '_$'):
+                    k -= 1
+                if src[k + 1:j + 1] in ('return', 'typeof', 'void', 'delete', 'in', 'of', 'throw', 'case', 'await', 'yield', 'instanceof', 'else', 'do'):
+                    grouping = True
+            stack.append([grouping, False])
+        elif ch == ')':
+            if stack:
+                grouping, has = stack.pop()
+                if grouping and has:
+                    rest = src[i + 1:i + 14].lstrip()
+                    if re.match(r'(\*\*|[-+*/%](?!=)|<<|>>|[<>]=?|[!=]==?|&(?![&=])|\^(?!=)|\|(?![|=])|instanceof\b|in\b)', rest):
+                        return True
+        elif ch == ',' and stack:
+            stack[-1][1] = True
+        elif ch in '[{' :
+            stack.append([False, False])
+        elif ch in ']}' and stack:
+            stack.pop()
+    return False
+
+
 def _paren_optchain(src):
     """a GROUPING parenthesis (not a call's) that contains `?.` at its own nesting level and is continued by . [ ( or `"""
     stack = []
@@ -428,6 +462,8 @@ _ex(r'catch\s*\(\s*(\w+)\s*\)\s*\{[^}]*\bvar\s+\1\b', 'K12 catch(b){var b=...} (
 _ex(r'[{,]\s*(undefined|Infinity)\s*[,}]|\b(undefined|Infinity)\s*(=(?!=)|\+\+|--|[-+*/%&|^]=|<<=|>>=|\*\*=)|(\+\+|--)\s*(undefined|Infinity)\b',
     'K13 undefined/Infinity as shorthand property or assignment/update target ({undefined} -> {0[0]}, Infinity=1 -> 1/0=1: SyntaxError)')
 _EMPTY = r"""(?:""|'')"""
+# statement bodies that the minifier reduces to nothing: ; {} {;} {var x;} {let y=...;}
+_EMPTYBODY = r'(?:;|\{\s*;?\s*\}|\{\s*var\s[^{};=]*;?\s*;?\s*\}|\{\s*(?:let|const)\s[^{};]*;?\s*;?\s*\})'
 _ex(r"""(?<![\\"'])""" + _EMPTY + r"""(?=\s*\?(?![.?]))|\b(if|while)\s*\(\s*[!(\s]*""" + _EMPTY + r"""[)\s]*\)|!\s*\(*\s*""" + _EMPTY +
     r"""|[?:]\s*\(*""" + _EMPTY + r"""\s*\)*\s*[:;)]""",
     'K14 the empty string literal as a condition (treated as truthy: ""?a:b -> a)')
@@ -437,7 +473,7 @@ _ex(r'function\b[^(]*\([^)]*\b(undefined|NaN|Infinity)\b[^)]*\)\s*\{|\b(var|let|
     r'\(([^()]*)\b(undefined|NaN|Infinity)\b[^()]*\)\s*=>|\b(undefined|NaN|Infinity)\s*=>',
     'K16 local bindings named undefined/NaN/Infinity (treated as the global constants)')
 _ex(r'\bvoid\s*\((?!\s*0\s*\))|\bvoid\s*(class\b|[\w.$]+\s*([-+*/%<>&|^]|instanceof\b|in\b|[!=]=)|[-+~!]|typeof\b|[\[{`])|'
-    r'\bif\s*\([^;{}]*[-+*/%<>&|^!~=][^;{}]*\)\s*(;|\{\s*;?\s*\}|\{\s*(let|const)\s[^{};]*;?\s*;?\s*\})\s*(?!\s*else)|'
+    r'\bif\s*\([^;{}]*[-+*/%<>&|^!~=][^;{}]*\)\s*' + _EMPTYBODY + r'(\s*else\s*' + _EMPTYBODY + r')?(?!\s*else)|'
     r'\{\s*(let|const)\s+\w+\s*=\s*[^;{}]*[-+*/%<>&|^!~][^;{}]*;?\s*\}',
     'K17 operator/class/literal expressions in discarded position (void X, if(X);, if(X){let y=..}, {let x=X}): hasSideEffects does '
     'not look into the operands of a binary expression, so calls/valueOf/throws/static initialisers inside are dropped')
@@ -454,6 +490,9 @@ _ex(r'0[xX][0-9a-fA-F_]{11,}n|0[bB][01_]{64,}n|0[oO][0-7_]{22,}n', 'K24 long hex
 _ex(r'\?\s*\(?\s*([A-Za-z_$][\w$]*)\(([^(),]*)\)\s*\)?\s*:\s*\(?\s*\1\(([^(),]*)\)', 'K25 cond?f(x):f(y) (rewritten to f(cond?x:y): the callee is read before the condition is evaluated)')
 _ex(r'\\x24|\\u0024|\\u\{0*24\}|\\44', 'K22f escapes of the dollar sign (\\x24, \\u0024, \\44) in string literals (decoded to $ before { inside a template literal)')
 _ex(r'\([^()]*\?\?[^()]*\)\s*\|(?![|=])', 'K26 a parenthesised ?? expression as left operand of | ((a??b)|c -> a??b|c)')
+_ex(r'\belse\s*' + _EMPTYBODY + r'\s*\}\s*else\b', 'K27 if(a){if(b)S else{}}else T: the empty inner else is dropped and the outer else captures the inner if (dangling else)')
+_ex(lambda src: _comma_group_binop(src), 'K28 a parenthesised comma expression as left operand of an arithmetic/relational/bitwise operator '
+    '((a,b==c)+d -> a,b==c+d in statement position)')
 _ex(r'\bstatic\s+[0-9.]', 'K23 static class fields with numeric names (static 1=2 -> static1=2)')
 
 # ===================================================================================================
